@@ -1524,6 +1524,34 @@ package gocql
 //@   ensures evictPreparedID_calls == executeQuery_calls
 //@   loop 0: invariant 0 <= i && i <= len(values) && len(params.values) == len(values) && len(values) == info.request.actualColCount && info.request.actualColCount == len(info.request.columns) && marshalQueryValue_calls == i && prepareStatement_calls == 1 && prepareStatement_ret1 == nil && prepareStatement_ret0 == info && exec_calls == 0 && executeQuery_calls == 0 && evictPreparedID_calls == 0
 
+//@ func (b *Batch) Context
+//@   props C14
+//@   modifies nothing
+//@   ensures result != nil
+
+// Batches: every entry with arguments is prepared under this connection's host/keyspace and its own
+// text; its slot in the BATCH frame carries the id PREPARE returned and as many values as the
+// statement has markers (a different number is an error, nothing is sent); entries without arguments
+// are sent as text. UNPREPARED evicts the entry of the statement that id was recorded for.
+//@ func (c *Conn) executeBatch
+//@   props C14
+//@   count_calls prepareStatement exec evictPreparedID executeBatch marshalQueryValue
+//@   requires batch != nil && ctx != nil && c.session != nil && c.session.stmtsLRU != nil && c.host != nil && plru_bound(c.session.stmtsLRU)
+//@   requires forall(k, 0 <= k && k < len(batch.Entries), true)
+//@   before prepareStatement: arg0 == c && same(arg2, entry.Stmt)
+//@   before exec: typeis(arg2, *writeBatchFrame) && unbox(arg2, *writeBatchFrame) == req
+//@   before evictPreparedID: typeis(resp, *RequestErrUnprepared) && same(arg2, unbox(resp, *RequestErrUnprepared).StatementId)
+//@   before executeBatch: arg0 == c && arg2 == batch
+//@   ensures result != nil
+//@   ensures executeBatch_calls == 0 ==> exec_calls <= 1
+//@   loop 0: invariant 0 <= i && i <= n && n == len(batch.Entries) && len(req.statements) == n && req != nil && fresh(req) && stmts != nil && exec_calls == 0 && executeBatch_calls == 0 && evictPreparedID_calls == 0 && plru_bound(c.session.stmtsLRU) && c.session != nil && c.session.stmtsLRU != nil && c.host != nil
+//@   loop 0: invariant forall(k, i <= k && k < n, len(req.statements[k].preparedID) == 0)
+// prepared slots processed so far carry an id and as many values as their statement has markers
+//@   loop 0: step prev(prepareStatement_calls) + 1 == prepareStatement_calls ==> prepareStatement_ret1 == nil && same(req.statements[prev(i)].preparedID, prepareStatement_ret0.id) && len(req.statements[prev(i)].values) == prepareStatement_ret0.request.actualColCount
+//@   loop 0: step prev(prepareStatement_calls) == prepareStatement_calls ==> same(req.statements[prev(i)].statement, batch.Entries[prev(i)].Stmt)
+//@   loop 0: step prev(prepareStatement_calls) == prepareStatement_calls ==> len(req.statements[prev(i)].preparedID) == 0
+//@   loop 1: invariant 0 <= j && j <= info.request.actualColCount && len(b.values) == info.request.actualColCount && len(values) == info.request.actualColCount && info.request.actualColCount == len(info.request.columns) && exec_calls == 0 && executeBatch_calls == 0 && evictPreparedID_calls == 0
+
 // ---------------------------------------------------------------------------
 // ring.go (C16): the three indexes of the ring (by id, by node-to-node address, ordered list)
 // ---------------------------------------------------------------------------
